@@ -314,7 +314,8 @@ def finish(ctx: Ctx, level="proof"):
     lines, rc = [], 0
     tree = repo_tree_id()
     n = 0
-    for v in new:
+    cov_extra = len(new)
+    for v in new[:10]:
         n += 1
         path = REPLAY / f"{ctx.prop}-{n}.json"
         path.write_text(json.dumps({
@@ -345,6 +346,8 @@ def finish(ctx: Ctx, level="proof"):
     cov.setdefault("distinct_nontrivial", 0)
     cov.setdefault("rule", "")
     cov["broken_obligations"] = ctx.broken
+    cov["unlisted_violations_found"] = cov_extra
+    cov["unlisted_violation_keys"] = [v["key"] for v in new[:50]]
     cov["known_findings_reproduced"] = [v["key"] for v in known]
     if not cov["samples"]:
         cov["samples"] = ["(no sample recorded)"]
